@@ -162,9 +162,12 @@ structure CfgsOK (cfgA cfgB : Cfg) : Prop where
       dictionary whether the peer's traffic passes depends on what the dictionary says) -/
   vda : cfgA.validator.app = none
   vdb : cfgB.validator.app = none
+  /-- EnableNextExpectedMsgSeqNum is off on both engines -/
+  nxa : cfgA.nextExpected = false
+  nxb : cfgB.nextExpected = false
 
 theorem CfgsOK.symm {cfgA cfgB : Cfg} (h : CfgsOK cfgA cfgB) : CfgsOK cfgB cfgA :=
-  ⟨h.pb, h.pa, h.nb, h.na, h.ts.symm, h.st.symm, h.bs.symm, by rw [← h.ts]; exact h.ne2, by rw [← h.st]; exact h.ne1, h.vdb, h.vda⟩
+  ⟨h.pb, h.pa, h.nb, h.na, h.ts.symm, h.st.symm, h.bs.symm, by rw [← h.ts]; exact h.ne2, by rw [← h.st]; exact h.ne1, h.vdb, h.vda, h.nxb, h.nxa⟩
 
 theorem poolP_mono {y x x' : Sess} {rcvY : List (String × String)} {d d' : List String} {adm : Bool} (hc : x'.cfg = x.cfg)
     (hg : Grow adm x.store x'.store) {im : InMsg} (h : PoolP (mkCtx y x rcvY d) im) : PoolP (mkCtx y x' rcvY d') im := by
@@ -185,7 +188,7 @@ theorem halves_step {cx cy : Cfg} (hcf : CfgsOK cx cy) {x y : Sess} (hcx : x.cfg
     ⟨by simp only [mkCtx, hcy]; exact hcf.pb, by simp only [mkCtx, hcy]; exact hcf.nb, by simp only [mkCtx, hcx, hcy]; exact hcf.ts.symm,
       by simp only [mkCtx, hcx, hcy]; exact hcf.st.symm, by simp only [mkCtx, hcx, hcy]; exact hcf.bs.symm,
       by simp only [mkCtx, hcx]; exact hcf.ne1, by simp only [mkCtx, hcx]; exact hcf.ne2, hxy.sok, hb,
-      by simp only [mkCtx, hcy]; exact hcf.vdb⟩
+      by simp only [mkCtx, hcy]; exact hcf.vdb, by simp only [mkCtx, hcy]; exact hcf.nxb⟩
   have r := side_step hc y e he rfl rfl hyx.sok hyx.q hxy.t1 hxy.t2 hxy.dlv hxy.pool
   generalize step y e = st at r
   obtain ⟨y', obs, status⟩ := st
